@@ -39,15 +39,17 @@ def plan(tier, seed):
                        covers=["accepted", "rejected", "accepted 420", "chroma planes that cannot cover luma explored"],
                        replay=geom_replay, geom=dict(kind="accept", T=T, lbw=4, lbh=2, cbw=2, cbh=2)))
     # 1. decode index safety
-    inst = [("u8", 1, 1, 2, 2), ("u8", 2, 0, 4, 1), ("u16", 1, 0, 2, 1), ("u8", 0, 0, 2, 2)]
+    # (storage, ss_x, ss_y, luma w, h, extra stride of the U buffer, of the V buffer): chroma planes of different strides, both orders,
+    # with at least two chroma rows where it matters (a stride mix-up only shows from the second row on)
+    inst = [("u8", 0, 0, 2, 2, 1, 0), ("u8", 1, 0, 2, 2, 1, 0), ("u8", 1, 1, 2, 2, 0, 1), ("u8", 2, 0, 4, 1, 0, 1), ("u16", 1, 0, 2, 1, 1, 0)]
     if thorough:
-        inst += [("u8", 1, 0, 2, 2), ("u8", 0, 1, 2, 2), ("u16", 1, 1, 2, 2),
-                 ("u8", 2, 2, 4, 4), ("u8", 1, 1, 4, 2), ("u8", 0, 0, 3, 3), ("u16", 0, 0, 2, 2), ("u16", 2, 0, 4, 2),
-                 ("u16", 0, 1, 1, 2), ("u8", 1, 0, 4, 3)]
-    for k, (T, sx, sy, w, h) in enumerate(inst):
+        inst += [("u8", 0, 1, 2, 2, 0, 1), ("u16", 1, 1, 2, 2, 1, 0), ("u8", 1, 1, 2, 4, 1, 0),
+                 ("u8", 2, 2, 4, 4, 0, 1), ("u8", 1, 1, 4, 2, 1, 0), ("u8", 0, 0, 3, 3, 0, 1), ("u16", 0, 0, 2, 2, 1, 0), ("u16", 2, 0, 4, 2, 0, 1),
+                 ("u16", 0, 1, 1, 2, 1, 0), ("u8", 1, 0, 4, 3, 1, 0)]
+    for (T, sx, sy, w, h, ue, ve) in inst:
         n = "k_c07_dec_%s_ss%d%d_%dx%d" % (T, sx, sy, w, h)
         # U and V planes get different strides; which one is wider alternates (a V stride smaller than U's is what exposes a shared-stride bug as an out-of-bounds read)
-        txt += geom.decode_harness(T, sx, sy, w, h, n, 8 if T == "u8" else 10, symbolic_content=(T == "u16"), pointwise=False, ue=(k + 1) % 2, ve=k % 2)
+        txt += geom.decode_harness(T, sx, sy, w, h, n, 8 if T == "u8" else 10, symbolic_content=(T == "u16"), pointwise=False, ue=ue, ve=ve)
         hs.append(dict(name=n, family="geom-decode", timeout=1500 if thorough else 900, mem_gb=14,
                        obligation="every accepted frame decodes with all get_unchecked accesses inside the plane buffers",
                        sym="luma %dx%d at a symbolic origin in a %dx%d buffer; both chroma windows (size, origin) symbolic in their buffers, U and V buffers of different strides; subsampling (%d,%d); %s%s" % (
